@@ -356,3 +356,19 @@ func verifLemma_C11_latlngs(lls LatLngs, buffer []byte, k int) {
 	verifrt.Assume(0 <= k && k < len(lls))
 	verifrt.Assert(got[k] == lls[k], "element")
 }
+
+// ---- C11: composite records (bounded shapes) ----------------------------------------
+// Records with no tags and empty geometry lists, one symbolic relation reference:
+// what matters here is that Marshal and Unmarshal agree on the primary namespace
+// they hand to each list.
+
+func verifLemma_C11_area_relations(r Reference, nss Namespaces) {
+	var buffer [64]byte
+	a := Area{Polygons: &AreaGeometryReferences{}, Relations: References{r}}
+	n := a.Marshal(&nss, buffer[0:])
+	var got Area
+	m := got.Unmarshal(&nss, buffer[0:])
+	verifrt.Assert(m == n, "consumes-what-was-written")
+	verifrt.Assert(len(got.Relations) == 1, "relations-length")
+	verifrt.Assert(got.Relations[0] == r, "relation")
+}
